@@ -29,6 +29,20 @@ def assigner_call(ctx, fn, term):
         if x.k == "call" and x.a[0].endswith("Option::<T>::and_then") and len(x.a[1]) == 2:
             recv, cl = x.a[1]
             recv_ok = any(y.k == "field" and y.a[1] == "compaction_filter_factory_assigner" for y in A.walk(recv))
+            if not recv_ok:
+                # the assigner may be handed in as a parameter: then every caller must pass the configured one
+                ps = [y.a[0] for y in A.walk(recv) if y.k == "param"]
+                callers = ctx.cg.callers(fn.id)
+                if ps and callers:
+                    recv_ok = True
+                    for cf, cb in callers:
+                        cfn = F.fns.get(cf)
+                        if cfn is None:
+                            recv_ok = False
+                            continue
+                        at = ctx.og(cfn).of_operand(cfn.term(cb)["args"][ps[0] - 1])
+                        if not any(y.k == "field" and y.a[1] == "compaction_filter_factory_assigner" for y in A.walk(at)):
+                            recv_ok = False
             if cl.k != "closure":
                 continue
             cf = F.fns.get(cl.a[0])
@@ -155,6 +169,16 @@ def run(ctx):
         for b, i, st in A.field_assigns(fn, "compaction_filter_factory_assigner"):
             if "builder::Builder" not in fid:
                 ctx.ob("R-C18.2", fn, "foreign-write-to-assigner", False, "compaction_filter_factory_assigner written outside the builder", fn.loc(b))
+    # the configured assigner stays in the config for the lifetime of the database (it is consulted again for every
+    # keyspace created later): nothing may move it out
+    for fid, fn in F.fns.items():
+        for b, t in fn.calls():
+            n = A.cname(t)
+            if n.endswith("Option::<T>::take") or n.startswith("std::mem::take") or n.startswith("std::mem::replace") or n.startswith("std::mem::swap") or n.endswith("Option::<T>::take_if") or n.endswith("Option::<T>::replace"):
+                term = ctx.og(fn).of_operand(t["args"][0])
+                if any(y.k == "field" and y.a[1] == "compaction_filter_factory_assigner" for y in A.walk(term)) and "builder::Builder" not in fid:
+                    ctx.ob("R-C18.2", fn, "assigner-moved-out-of-config", False,
+                           "%s removes the filter assigner from the database config in %s: keyspaces created later on this handle are no longer offered their filter" % (n.rsplit("::", 1)[-1], fid), fn.loc(b))
     ap = ctx.fn("keyspace::apply_to_base_config", "R-C18.2")
     if ap:
         og = ctx.og(ap)
